@@ -136,7 +136,7 @@ class Checker:
             self.v("forks-raises", "forks() raised %r; parents=%s" % (e, model.parent[1:]), w)
 
 
-def run_vector(chk, mods, parents, mode="cheap"):
+def run_vector(chk, mods, parents, mode="cheap", sampled=None):
     """parents: list p[1..n] (index 0 = genesis)"""
     CoinState, dt, sg = mods
     model = Model()
@@ -153,7 +153,10 @@ def run_vector(chk, mods, parents, mode="cheap"):
         cs = cs.add_block_no_validation(blk)
         chk.c["unvalidated_adds"] += 1
         ids.append(blk.hash())
-        chk.after_add(cs, prev, model, ids, w)
+        if sampled is None:
+            chk.after_add(cs, prev, model, ids, w)
+        else:
+            chk.after_add(cs, prev, model, ids, w, full_index=False, rng=sampled)
 
 
 def run_mined(chk, rng, nblocks, w_seed):
@@ -241,6 +244,20 @@ def run_shard(spec):
             else:
                 vec.append(max(0, i - 2) if i > 2 else 0)
         run_vector(chk, mods, vec)
+    # long histories: a main chain of length H, then a branch forking `depth` blocks below the head that grows until it
+    # overtakes (deep reorganisations; only cheap un-mined blocks, sampled index checks)
+    for j in range(3 if quick else 30):
+        H = rng.choice([120, 160, 260, 400])
+        depth = rng.choice([3, 50, 99, 100, 101, 110, H - 10, H - 1])
+        vec = [i for i in range(H)]                    # block i+1 on block i
+        fork_at = H - depth
+        cur = fork_at
+        for k in range(depth + 1):
+            vec.append(cur)
+            cur = len(vec)
+        vec += [len(vec), rng.randrange(len(vec))]
+        run_vector(chk, mods, vec, sampled=rng)
+        chk.c["long_histories"] = chk.c.get("long_histories", 0) + 1
     samples.append({"kind": "exhaustive parent vectors", "up_to_new_blocks": nmax, "example": [0, 0, 1, 1, 2]})
     return {"evaluations": chk.c["arrivals_checked"], "digests": sorted(chk.digests), "violations": chk.viol,
             "counters": chk.c, "samples": samples, "exhaustive": True}
@@ -257,6 +274,7 @@ def finalize(m, tier):
                 "the validating entry point; distinct = distinct parent vectors by digest; non-trivial = every vector "
                 "(ties/reorganisations counted separately)" % nmax,
         "floors": [("histories", c.get("histories", 0), total), ("ties_observed", c.get("ties_observed", 0), 1000),
-                   ("reorg_switches", c.get("reorg_switches", 0), 500), ("validated_adds", c.get("validated_adds", 0), 300)],
+                   ("reorg_switches", c.get("reorg_switches", 0), 500), ("validated_adds", c.get("validated_adds", 0), 300),
+                   ("long_histories", c.get("long_histories", 0), 20)],
         "extra": {"exhaustive_bound": "all %d parent vectors with at most %d blocks after genesis" % (total, nmax)},
     }
